@@ -1,7 +1,7 @@
 // Table of replayable operations: each runs the real hifitime code and the oracle on the same inputs.
 use crate::oracle::*;
-use crate::{Arg, Op, Ty};
-use hifitime::{Duration, TimeUnits, Unit};
+use crate::{Arg, Op, Ty, SCALES};
+use hifitime::{Duration, Epoch, TimeScale, TimeSeries, TimeUnits, Unit};
 
 fn always(_: &[Arg]) -> bool {
     true
@@ -171,4 +171,168 @@ pub static OPS: &[Op] = &[
         };
         (show_d(a[0].dur().round(a[1].dur())), show_total(e))
     }},
+    // ---------------------------------------------------------------- C05 uniform time scales
+    Op { name: "to_time_scale", sig: &[Ty::Dur, Ty::UTs, Ty::UTs], pre: |a| conv_ok(a[0].total(), a[1].ts(), a[2].ts()), f: |a| {
+        let e = Epoch::from_duration(a[0].dur(), a[1].ts());
+        let r = e.to_time_scale(a[2].ts());
+        let exp = a[0].total() + scale_zero(a[1].ts()).unwrap() - scale_zero(a[2].ts()).unwrap();
+        (format!("{} {:?}", show_d(r.duration), r.time_scale), format!("{} {:?}", show_total(exp), a[2].ts()))
+    }},
+    Op { name: "to_duration_accessors", sig: &[Ty::Dur, Ty::UTs], pre: |a| SCALES[..6].iter().all(|t| conv_ok(a[0].total(), a[1].ts(), *t)), f: |a| {
+        let e = Epoch::from_duration(a[0].dur(), a[1].ts());
+        let tai = a[0].total() + scale_zero(a[1].ts()).unwrap();
+        let got = format!("{} {} {} {} {} {} {}", show_d(e.to_tai_duration()), show_d(e.to_tt_duration()), show_d(e.to_gpst_duration()),
+            show_d(e.to_gst_duration()), show_d(e.to_bdt_duration()), show_d(e.to_qzsst_duration()), show_d(e.to_duration_since_j1900()));
+        let z = |t: TimeScale| show_total(tai - scale_zero(t).unwrap());
+        (got, format!("{} {} {} {} {} {} {}", z(TimeScale::TAI), z(TimeScale::TT), z(TimeScale::GPST), z(TimeScale::GST), z(TimeScale::BDT), z(TimeScale::QZSST), z(TimeScale::TAI)))
+    }},
+    Op { name: "conv_roundtrip", sig: &[Ty::Dur, Ty::UTs, Ty::UTs], pre: |a| conv_ok(a[0].total(), a[1].ts(), a[2].ts()), f: |a| {
+        let e = Epoch::from_duration(a[0].dur(), a[1].ts());
+        let r = e.to_time_scale(a[2].ts()).to_time_scale(a[1].ts());
+        (format!("{} {:?}", show_d(r.duration), r.time_scale), format!("{} {:?}", show_total(a[0].total()), a[1].ts()))
+    }},
+    Op { name: "ref_epochs", sig: &[Ty::UTs], pre: always, f: |a| {
+        let ts = a[0].ts();
+        let r = ts.reference_epoch();
+        (format!("{} {}", show_d(r.duration), show_d(r.to_tai_duration())), format!("(0, 0) {}", show_total(scale_zero(ts).unwrap())))
+    }},
+    // ---------------------------------------------------------------- C04 epoch arithmetic
+    Op { name: "epoch_add", sig: &[Ty::Dur, Ty::Ts, Ty::Dur], pre: always, f: |a| {
+        let e = Epoch::from_duration(a[0].dur(), a[1].ts());
+        let r = e + a[2].dur();
+        let mut r2 = e; r2 += a[2].dur();
+        (format!("{} {:?} {}", show_d(r.duration), r.time_scale, show_d(r2.duration)), format!("{} {:?} {}", show_total(clamp(a[0].total() + a[2].total())), a[1].ts(), show_total(clamp(a[0].total() + a[2].total()))))
+    }},
+    Op { name: "epoch_sub_dur", sig: &[Ty::Dur, Ty::Ts, Ty::Dur], pre: always, f: |a| {
+        let e = Epoch::from_duration(a[0].dur(), a[1].ts());
+        let r = e - a[2].dur();
+        let mut r2 = e; r2 -= a[2].dur();
+        (format!("{} {:?} {}", show_d(r.duration), r.time_scale, show_d(r2.duration)), format!("{} {:?} {}", show_total(clamp(a[0].total() - a[2].total())), a[1].ts(), show_total(clamp(a[0].total() - a[2].total()))))
+    }},
+    Op { name: "epoch_add_unit", sig: &[Ty::Dur, Ty::Ts, Ty::Unit], pre: always, f: |a| {
+        let e = Epoch::from_duration(a[0].dur(), a[1].ts());
+        let (r, q) = (e + a[2].unit(), e - a[2].unit());
+        let mut r2 = e; r2 += a[2].unit();
+        let mut q2 = e; q2 -= a[2].unit();
+        let (p, m) = (clamp(a[0].total() + unit_ns(a[2].unit())), clamp(a[0].total() - unit_ns(a[2].unit())));
+        (format!("{} {} {} {} {:?} {:?}", show_d(r.duration), show_d(q.duration), show_d(r2.duration), show_d(q2.duration), r.time_scale, q.time_scale),
+         format!("{} {} {} {} {:?} {:?}", show_total(p), show_total(m), show_total(p), show_total(m), a[1].ts(), a[1].ts()))
+    }},
+    Op { name: "epoch_sub_epoch", sig: &[Ty::Dur, Ty::UTs, Ty::Dur, Ty::UTs], pre: |a| conv_ok(a[2].total(), a[3].ts(), a[1].ts()), f: |a| {
+        let e = Epoch::from_duration(a[0].dur(), a[1].ts());
+        let f = Epoch::from_duration(a[2].dur(), a[3].ts());
+        let other_in_self = a[2].total() + scale_zero(a[3].ts()).unwrap() - scale_zero(a[1].ts()).unwrap();
+        (show_d(e - f), show_total(clamp(a[0].total() - other_in_self)))
+    }},
+    // ---------------------------------------------------------------- C12 epoch comparisons
+    Op { name: "epoch_cmp", sig: &[Ty::Dur, Ty::UTs, Ty::Dur, Ty::UTs], pre: |a| conv_ok(a[2].total(), a[3].ts(), a[1].ts()) && conv_ok(a[0].total(), a[1].ts(), a[3].ts()), f: |a| {
+        let e = Epoch::from_duration(a[0].dur(), a[1].ts());
+        let f = Epoch::from_duration(a[2].dur(), a[3].ts());
+        let (x, y) = (a[0].total() + scale_zero(a[1].ts()).unwrap(), a[2].total() + scale_zero(a[3].ts()).unwrap());
+        (format!("{:?} {:?} eq={} eq'={} lt={} gt={} min={} max={}", e.cmp(&f), e.partial_cmp(&f), e == f, f == e, e < f, e > f, e.min(f) == (if x <= y { e } else { f }), e.max(f) == (if x >= y { e } else { f })),
+         format!("{:?} {:?} eq={} eq'={} lt={} gt={} min=true max=true", x.cmp(&y), Some(x.cmp(&y)), x == y, x == y, x < y, x > y))
+    }},
+    Op { name: "epoch_cmp_same_scale", sig: &[Ty::Dur, Ty::Dur, Ty::Ts], pre: always, f: |a| {
+        let e = Epoch::from_duration(a[0].dur(), a[2].ts());
+        let f = Epoch::from_duration(a[1].dur(), a[2].ts());
+        let (x, y) = (a[0].total(), a[1].total());
+        (format!("{:?} eq={} lt={}", e.cmp(&f), e == f, e < f), format!("{:?} eq={} lt={}", x.cmp(&y), x == y, x < y))
+    }},
+    // ---------------------------------------------------------------- C14 epoch snapping
+    Op { name: "epoch_floor_ceil_round", sig: &[Ty::Dur, Ty::Ts, Ty::Dur], pre: always, f: |a| {
+        let e = Epoch::from_duration(a[0].dur(), a[1].ts());
+        let (t, s) = (a[0].total(), a[2].total());
+        let (fl, ce, ro) = (e.floor(a[2].dur()), e.ceil(a[2].dur()), e.round(a[2].dur()));
+        let exp = if s == 0 { (0, 0, 0) } else {
+            let f = clamp(floor_to(t, s.abs())); let c = clamp(f + s.abs());
+            (f, c, if t - f < c - t { f } else { c })
+        };
+        (format!("{} {} {} {:?} {:?} {:?}", show_d(fl.duration), show_d(ce.duration), show_d(ro.duration), fl.time_scale, ce.time_scale, ro.time_scale),
+         format!("{} {} {} {:?} {:?} {:?}", show_total(exp.0), show_total(exp.1), show_total(exp.2), a[1].ts(), a[1].ts(), a[1].ts()))
+    }},
+    // ---------------------------------------------------------------- C20 GNSS counters
+    Op { name: "from_time_of_week", sig: &[Ty::U32, Ty::U64, Ty::Ts], pre: always, f: |a| {
+        let r = Epoch::from_time_of_week(a[0].int() as u32, a[1].int() as u64, a[2].ts());
+        (format!("{} {:?}", show_d(r.duration), r.time_scale), format!("{} {:?}", show_total(clamp(a[0].int() * 7 * DAY_NS + a[1].int())), a[2].ts()))
+    }},
+    Op { name: "to_time_of_week", sig: &[Ty::Dur, Ty::Ts], pre: |a| a[0].total() >= 0, f: |a| {
+        let (w, n) = Epoch::from_duration(a[0].dur(), a[1].ts()).to_time_of_week();
+        let t = a[0].total();
+        (format!("({}, {})", w, n), format!("({}, {})", t / (7 * DAY_NS), t % (7 * DAY_NS)))
+    }},
+    Op { name: "gnss_nanoseconds", sig: &[Ty::Dur, Ty::UTs], pre: |a| SCALES[..6].iter().all(|t| conv_ok(a[0].total(), a[1].ts(), *t)), f: |a| {
+        let e = Epoch::from_duration(a[0].dur(), a[1].ts());
+        let tai = a[0].total() + scale_zero(a[1].ts()).unwrap();
+        let show = |r: Result<u64, hifitime::HifitimeError>| match r { Ok(v) => format!("Ok({})", v), Err(_) => "Err".to_string() };
+        let exp = |t: TimeScale| { let v = tai - scale_zero(t).unwrap(); if (0..NPC).contains(&v) { format!("Ok({})", v) } else { "Err".to_string() } };
+        (format!("{} {} {} {}", show(e.to_gpst_nanoseconds()), show(e.to_qzsst_nanoseconds()), show(e.to_gst_nanoseconds()), show(e.to_bdt_nanoseconds())),
+         format!("{} {} {} {}", exp(TimeScale::GPST), exp(TimeScale::QZSST), exp(TimeScale::GST), exp(TimeScale::BDT)))
+    }},
+    Op { name: "from_gnss_nanoseconds", sig: &[Ty::U64], pre: always, f: |a| {
+        let n = a[0].int() as u64;
+        let got = format!("{} {} {} {}", show_d(Epoch::from_gpst_nanoseconds(n).duration), show_d(Epoch::from_qzsst_nanoseconds(n).duration),
+            show_d(Epoch::from_gst_nanoseconds(n).duration), show_d(Epoch::from_bdt_nanoseconds(n).duration));
+        let e = show_total(a[0].int());
+        (got, format!("{} {} {} {}", e, e, e, e))
+    }},
+    // ---------------------------------------------------------------- C15 time series
+    Op { name: "timeseries", sig: &[Ty::Dur, Ty::UTs, Ty::Dur, Ty::UTs, Ty::Dur, Ty::Bool], pre: |a| {
+        // positive step, non-negative span, at most 2000 items, everything far from saturation
+        let step = a[4].total();
+        if step <= 0 || a[0].total().abs() > 1000 * NPC || a[2].total().abs() > 1000 * NPC { return false; }
+        let span = a[2].total() + scale_zero(a[3].ts()).unwrap() - scale_zero(a[1].ts()).unwrap() - a[0].total();
+        span >= 0 && span / step <= 2000
+    }, f: |a| {
+        let start = Epoch::from_duration(a[0].dur(), a[1].ts());
+        let end = Epoch::from_duration(a[2].dur(), a[3].ts());
+        let step = a[4].dur();
+        let incl = a[5].boolean();
+        let mut ts = if incl { TimeSeries::inclusive(start, end, step) } else { TimeSeries::exclusive(start, end, step) };
+        let span = a[2].total() + scale_zero(a[3].ts()).unwrap() - scale_zero(a[1].ts()).unwrap() - a[0].total();
+        let mut got = String::new();
+        let mut n = 0;
+        while let Some(e) = ts.next() {
+            got += &format!("{}{:?};", show_d(e.duration), e.time_scale);
+            n += 1;
+            if n > 2100 { break; }
+        }
+        // exhausted for good
+        got += &format!("then {:?} {:?}", ts.next().is_none(), ts.next().is_none());
+        let mut exp = String::new();
+        let mut k: i128 = 0;
+        while (incl && k * a[4].total() <= span) || (!incl && k * a[4].total() < span) {
+            exp += &format!("{}{:?};", show_total(a[0].total() + k * a[4].total()), a[1].ts());
+            k += 1;
+        }
+        exp += "then true true";
+        (got, exp)
+    }},
+    // ---------------------------------------------------------------- C08 gregorian construction
+    Op { name: "gregorian_reject", sig: &[Ty::I32, Ty::U8, Ty::U8, Ty::U8, Ty::U8, Ty::U8, Ty::U32, Ty::Ts], pre: |a| a[0].int().abs() <= 100_000, f: |a| {
+        let (y, mo, d, h, mi, s, ns) = (a[0].int(), a[1].int(), a[2].int(), a[3].int(), a[4].int(), a[5].int(), a[6].int());
+        let r = Epoch::maybe_from_gregorian(y as i32, mo as u8, d as u8, h as u8, mi as u8, s as u8, ns as u32, a[7].ts());
+        let valid = strict_valid(y, mo, d, h, mi, s, ns);
+        let reject = must_reject(y, mo, d, h, mi, s, ns);
+        let verdict = if valid && r.is_err() { "valid date-time rejected".to_string() }
+            else if reject && r.is_ok() { "invalid date-time accepted".to_string() } else { "ok".to_string() };
+        (verdict, "ok".to_string())
+    }},
+    Op { name: "gregorian_build", sig: &[Ty::I32, Ty::U8, Ty::U8, Ty::U8, Ty::U8, Ty::U8, Ty::U32, Ty::Ts], pre: |a| {
+        a[0].int().abs() <= 100_000 && strict_valid(a[0].int(), a[1].int(), a[2].int(), a[3].int(), a[4].int(), a[5].int(), a[6].int()) && a[5].int() < 60
+    }, f: |a| {
+        let (y, mo, d, h, mi, s, ns) = (a[0].int(), a[1].int(), a[2].int(), a[3].int(), a[4].int(), a[5].int(), a[6].int());
+        let r = Epoch::maybe_from_gregorian(y as i32, mo as u8, d as u8, h as u8, mi as u8, s as u8, ns as u32, a[7].ts());
+        let exp = day_index(y, mo, d) * DAY_NS + h * 3_600_000_000_000 + mi * 60_000_000_000 + s * 1_000_000_000 + ns - greg_zero(a[7].ts());
+        (match r { Ok(e) => format!("{} {:?}", show_d(e.duration), e.time_scale), Err(_) => "Err".to_string() }, format!("{} {:?}", show_total(exp), a[7].ts()))
+    }},
 ];
+
+fn conv_ok(total: i128, src: TimeScale, dst: TimeScale) -> bool {
+    match (scale_zero(src), scale_zero(dst)) {
+        (Some(a), Some(b)) => {
+            let t = total + a;
+            t >= MIN_T && t <= MAX_T && t - b >= MIN_T && t - b <= MAX_T
+        }
+        _ => false,
+    }
+}
